@@ -192,7 +192,6 @@ def worker_init():
 def _execute(seqs):
     from bsv.harness.session import run
 
-    global _SCN
     if _SCN is None:
         worker_init()
     scn = _SCN(seqs=[list(s) for s in seqs])
